@@ -146,6 +146,9 @@ func cmdVerify(args []string) {
 			continue
 		}
 		vcs = append(vcs, vc)
+		for _, n := range vc.notes {
+			fmt.Println(n)
+		}
 		for _, o := range vc.obls {
 			jobs = append(jobs, job{vc, o})
 		}
